@@ -23,7 +23,7 @@ cleanup; trap - EXIT
 # now the check, against /repo itself
 if [ -n "$(git -C /repo status --porcelain)" ]; then echo "RESULT $C m$N: /repo not clean, refusing"; exit 2; fi
 git -C /repo apply "$P"
-out=$(cd /verif && timeout 3600 ./run.sh "$C" "$T" 2>&1)
+out=$(cd "${EVAL_VERIF:-/verif}" && timeout 3600 ./run.sh "$C" "$T" 2>&1)
 rc=$?
 git -C /repo checkout -- . ; git -C /repo clean -fdq -- . >/dev/null 2>&1
 sigs=$(echo "$out" | grep -E "^  sig=" | sed 's/ occurrences.*//' | tr -d ' ' | tr '\n' ',' )
